@@ -2,6 +2,7 @@ import Pendulum.Drv.Util
 import Pendulum.Model.Cal
 import Pendulum.Gen.RsHelpers
 import Pendulum.Model.LocalTime
+import Pendulum.Gen.LocalTime
 import Pendulum.Gen.Helpers
 namespace Pendulum.Drv.C15
 open Pendulum Pendulum.Drv
@@ -39,8 +40,11 @@ def handle (_zs : Zones) (ws : List String) : Option String :=
   | ["localtime", b, t, off] => do
     let t ← t.toInt?; let off ← off.toInt?
     let (y, mo, d, h, mi, s) :=
-      if b == "rs" then LocalTime.localTime true LocalTime.rsTbl t off
-      else LocalTime.localTime false LocalTime.pyTbl t off
+      -- answered by the definitions REGENERATED from the two sources (tools/gen_localtime.py), so that the
+      -- correspondence run also exercises the translator; Props.C15.local_time_source_eq_model ties them to the
+      -- hand model LocalTime.localTime for all inputs
+      if b == "rs" then Gen.rs_local_time t off
+      else Gen.py_local_time t off
     some (okInts [y, mo, d, h, mi, s])
   | ["getters", y, m, d] => do
     let y ← y.toInt?; let m ← m.toInt?; let d ← d.toInt?
